@@ -1,3 +1,4 @@
--- This module serves as the root of the `ZnVerif` library.
--- Import modules here that should be built as part of the library.
-import ZnVerif.Basic
+-- Root of the `ZnVerif` library: every module that `lake build` (setup) must compile.
+import ZnVerif.Properties.C04
+import ZnVerif.Ops.C04
+import ZnVerif.Ops.Run
